@@ -60,7 +60,9 @@ def log(u):
     if isc(u, 1): return lift(0)
     if u.op == 'exp': return u.a[0]
     return T('log', u)
+def app(name, *args): return T('app', name, *[lift(a) for a in args])
 def show(t):
+    if t.op == 'app': return f"{t.a[0]}({', '.join(show(x) for x in t.a[1:])})"
     if t.op == 'c': return str(t.a[0])
     if t.op == 'v': return t.a[0]
     if t.op in ('exp', 'log'): return f"{t.op}({show(t.a[0])})"
@@ -68,6 +70,7 @@ def show(t):
 def dep(t, x):
     if t.op == 'c': return False
     if t.op == 'v': return t.a[0] == x
+    if t.op == 'app': return any(dep(a, x) for a in t.a[1:])
     return any(dep(a, x) for a in t.a)
 def D(t, x):
     o = t.op
@@ -86,6 +89,7 @@ def ev(t, env):
     o = t.op
     if o == 'c': return float(t.a[0])
     if o == 'v': return env[t.a[0]]
+    if o == 'app': return env[t.a[0]](*[ev(x, env) for x in t.a[1:]])
     if o == 'exp': return math.exp(ev(t.a[0], env))
     if o == 'log': return math.log(ev(t.a[0], env))
     a, b = ev(t.a[0], env), ev(t.a[1], env)
@@ -95,12 +99,14 @@ def atoms(t, acc):
     if t.op in ('exp', 'log'):
         acc.setdefault(show(t), t)
         atoms(t.a[0], acc)
+    elif t.op == 'app':
+        for a in t.a[1:]: atoms(a, acc)
     elif t.op not in ('c', 'v'):
         for a in t.a: atoms(a, acc)
     return acc
 class Z:
     """z3 emission; exp/log atoms become fresh reals constrained by the instantiated axiom schema"""
-    def __init__(s): s.vars = {}; s.at = {}; s.side = []
+    def __init__(s): s.vars = {}; s.at = {}; s.side = []; s.ufs = {}
     def v(s, n):
         if n not in s.vars: s.vars[n] = z3.Real(n)
         return s.vars[n]
@@ -108,6 +114,11 @@ class Z:
         o = t.op
         if o == 'c': return z3.RealVal(str(t.a[0]))
         if o == 'v': return s.v(t.a[0])
+        if o == 'app':
+            name, args = t.a[0], t.a[1:]
+            key = (name, len(args))
+            if key not in s.ufs: s.ufs[key] = z3.Function(name, *([z3.RealSort()] * (len(args) + 1)))
+            return s.ufs[key](*[s(x) for x in args]) if args else s.v(name)
         if o in ('exp', 'log'):
             k = show(t)
             if k not in s.at:
